@@ -183,7 +183,7 @@ class NonlocalGame:
             ) = pred_mat_copy.shape
         pred_mat_copy = np.transpose(pred_mat_copy, (0, 2, 1, 3))
 
-        num_iterations = num_alice_outputs**num_bob_inputs
+        num_iterations = num_bob_outputs**num_bob_inputs
 
         # we parallelize for large problems only
         if num_iterations > 1000:
